@@ -17,7 +17,7 @@ REPO = os.environ.get("IOFLO_REPO", "/repo")
 LEAN = os.path.join(VERIF, "lean")
 BIN = os.path.join(LEAN, ".lake", "build", "bin")
 AUDIT = os.path.join(BIN, "audit")
-EVIDENCE = os.path.join(VERIF, "evidence")
+EVIDENCE = os.environ.get("VERIF_EVIDENCE_DIR") or os.path.join(VERIF, "evidence")
 REPLAYS = os.path.join(VERIF, "replays")
 SCRATCH = os.path.join(VERIF, ".scratch")
 ALLOWED_AXIOMS = {"propext", "Classical.choice", "Quot.sound"}
